@@ -284,7 +284,9 @@ def validate_scalar(value: Any, dtype: DataType) -> Any:
             )
         return None
 
-    vtype = type(value)
+    # Classify the value the way inference does: an element the column already holds
+    # (an IntEnum member in an int column, a struct_time in a tuple column) is its kind
+    vtype = infer_kind(value)
 
     # Exact match
     if vtype is dtype.kind:
